@@ -8,6 +8,7 @@ import (
 	"fmt"
 	"net/url"
 	"reflect"
+	"strings"
 	"sync"
 
 	"github.com/google/jsonschema-go/jsonschema"
@@ -411,7 +412,62 @@ func init() {
 		}
 		close(start)
 		wg.Wait()
-		return map[string]any{"outcome": "resolved", "mismatches": mismatches, "calls": k * m * (2*len(insts) + 4)}, nil
+		// different Schema values that carry unknown keywords next to ordinary ones, marshaled at the same time: whatever Marshal
+		// recycles between calls (buffers, sets) is then handed from one schema's call to another's
+		variants := make([]*jsonschema.Schema, 4)
+		wantV := make([][]byte, len(variants))
+		for i := range variants {
+			v := uSeq.root.CloneSchemas()
+			fill := strings.Repeat(string(rune('a'+i)), 2048*(i+1))
+			decorate := func(x *jsonschema.Schema, tag string) {
+				if x == nil {
+					return
+				}
+				ex := map[string]any{}
+				for k, val := range x.Extra {
+					ex[k] = val
+				}
+				ex["x-origin"] = fmt.Sprintf("%s-%d", tag, i)
+				ex["x-fill"] = fill
+				x.Extra = ex
+				if x.Title == "" {
+					x.Title = "t" + fill[:16]
+				}
+			}
+			decorate(v, "root")
+			for name, c := range v.Properties {
+				decorate(c, "p:"+name)
+			}
+			for _, c := range v.AllOf {
+				decorate(c, "allOf")
+			}
+			variants[i] = v
+			wantV[i], _ = json.Marshal(v)
+		}
+		var wg2 sync.WaitGroup
+		start2 := make(chan struct{})
+		for g := 0; g < 24; g++ {
+			wg2.Add(1)
+			go func(g int) {
+				defer wg2.Done()
+				defer func() {
+					if r := recover(); r != nil {
+						note()
+					}
+				}()
+				<-start2
+				for n := 0; n < 12; n++ {
+					i := (g + n) % len(variants)
+					b, err := json.Marshal(variants[i])
+					if err != nil || !bytes.Equal(b, wantV[i]) {
+						note()
+					}
+				}
+			}(g)
+		}
+		close(start2)
+		wg2.Wait()
+		return map[string]any{"outcome": "resolved", "mismatches": mismatches, "calls": k*m*(2*len(insts)+4) + 24*12}, nil
 	})
 
 	// cold {text, insts}: meant to be the FIRST operation of a fresh process: k goroutines, released together, each make the
